@@ -31,7 +31,7 @@ L_AD = [("if private and not self.is_private:", "ad.ifpriv"), ('raise ValueError
         ("data.update(params)", "ad.update2"), ("return data", "ad.ret2")]
 L_PUB = [("if isinstance(self.raw_value,", "pub.if"), ("return self.raw_value.public_key()", "pub.ret"),
          ("return self.raw_value", "pub.ret")]
-WT = {"dv.if", "dv.ret", "dv.ret2", "dv.assign", "dv.retdata", "dv.update", "r.ret", "ad.for",
+WT = {"jwe.cek", "jwe.iv", "dv.if", "dv.ret", "dv.ret2", "dv.assign", "dv.retdata", "dv.update", "r.ret", "ad.for",
       "gok.retpub", "pub.ret", "prk.choice"}     # steps that read or write mutable shared state
 
 
@@ -40,6 +40,7 @@ def label_specs():
     from joserfc.jwk import guess_key, KeySet, ECKey, RSAKey, OKPKey
     from joserfc.rfc7515.registry import JWSRegistry
     import joserfc.rfc7638 as r7638
+    import joserfc.rfc7516.message as M16
     return [
         ("dict_value", BaseKey.dict_value, L_DV, False),
         ("ensure_kid", BaseKey.ensure_kid, [('if "kid" not in self.dict_value:', "ek.if"),
@@ -71,6 +72,9 @@ def label_specs():
         ("OKPKey.public_key", OKPKey.__dict__["public_key"], L_PUB, False),
         ("KeySet.__init__", KeySet.__init__, [("for key in keys:", "ks.for"), ("key.ensure_kid()", "ks.ensure"),
                                               ("self.keys = keys", "ks.assign")], False),
+        ("KeySet.as_dict", KeySet.as_dict,
+         [("keys: list[DictKey] = []", "ksd.init"), ("for key in self.keys:", "ksd.for"), ("key.ensure_kid()", "ksd.ensure"),
+          ("keys.append(key.as_dict(private=private, **params))", "ksd.append"), ('return {"keys": keys}', "ksd.ret")], False),
         ("get_by_kid", KeySet.get_by_kid,
          [("if kid is None and len(self.keys) == 1:", "gbk.if"), ("return self.keys[0]", "gbk.ret0"), ("for key in self.keys:", "gbk.for"),
           ("if key.kid == kid:", "gbk.ifkid"), ("return key", "gbk.retkey"),
@@ -88,6 +92,10 @@ def label_specs():
           ("rv_key = _norm_key.get_by_kid(kid)", "gk.getbykid"),
           ("elif isinstance(_norm_key, (OctKey, RSAKey, ECKey, OKPKey)):", "gk.iskey"), ("rv_key = _norm_key", "gk.rvkey"),
           ('raise ValueError("Invalid key")', "gk.raise"), ("return rv_key", "gk.ret")], False),
+        # JWE: the registry reads and the draws of a producer (partial: only these lines are steps)
+        ("perform_encrypt", M16.perform_encrypt, [('enc = registry.get_enc(obj.protected["enc"])', "jwe.reg"), ("iv = enc.generate_iv()", "jwe.iv")], True),
+        ("_perform_decrypt", M16._perform_decrypt, [('enc = registry.get_enc(obj.protected["enc"])', "jwe.reg")], True),
+        ("pre_encrypt_recipients", M16.pre_encrypt_recipients, [("cek = enc.generate_cek()", "jwe.cek")], True),
         # only the first line of get_alg is a step (reads of class tables / the singleton)
         ("get_alg", JWSRegistry.get_alg, [("<first>", "jws.getalg")], True),
     ]
@@ -341,6 +349,8 @@ def c_allowed(a):
 def coq_of(op, r):
     if not op.crypto:
         return op.coq
+    if op.crypto == "jwe":     # the primitive's verdict (unwrap / tag check) is an oracle
+        return op.coq + (" (Some DecodeError)" if r == ("err", "EJose DecodeError") else " None")
     return op.coq + (" (Some BadSignatureError)" if r == ("err", "EJose BadSignatureError") else " None")
 
 
@@ -393,6 +403,11 @@ def mk_ops(tokens):
             return None if key is None else [i for i, x in enumerate(env.keys) if x is key][0]
         return Op("pick(%d,%s)" % (s, alg), "CPick %d %s" % (s, c_cstr(alg)), fn, rand=True)
 
+    def set_as_dict(s, private=None):
+        cp = "None" if private is None else "(Some %s)" % c_bool(private)
+        kw = {} if private is None else {"private": private}
+        return Op("KeySet.as_dict(%d,%r)" % (s, private), "CSetAsDict %d %s" % (s, cp), lambda env: env.sets[s].as_dict(**kw))
+
     def kr(ref):
         return ("(KKey %d)" % ref[1]) if ref[0] == "k" else ("(KSet %d)" % ref[1])
 
@@ -423,9 +438,35 @@ def mk_ops(tokens):
         o.crypto = True
         return o
 
+    def jwe_enc(ref, alg, enc, kidv=None):
+        def fn(env):
+            hdr = {"alg": alg, "enc": enc}
+            if kidv is not None:
+                hdr["kid"] = kidv
+            tok = jwe.encrypt_compact(hdr, b"secret", obj(env, ref), algorithms=[alg, enc])
+            env.jwe_tokens.append((tok, alg, enc))
+            return json.loads(lib_b64(tok.split(".")[0])).get("kid")
+        return Op("jwe_enc(%s,%s,%s,%r)" % (ref, alg, enc, kidv),
+                  "CJwe true %s %s %s %s %s None" % (kr(ref), c_ostr(kidv), c_cstr(alg), c_cstr(enc), c_allowed([alg, enc])), fn,
+                  rand=(ref[0] == "s" and not kidv), kidsens=(ref[0] == "s" and bool(kidv)))
+
+    def jwe_dec(ref, tokname):
+        tok, alg, enc, kidv = tokens[tokname]
+
+        def fn(env):
+            o = jwe.decrypt_compact(tok, obj(env, ref), algorithms=[alg, enc])
+            if o.plaintext != b"secret":
+                raise RuntimeError("decrypted plaintext differs")
+            return o.headers().get("kid")
+        o = Op("jwe_dec(%s,%s)" % (ref, tokname),
+               "CJwe false %s %s %s %s %s" % (kr(ref), c_ostr(kidv), c_cstr(alg), c_cstr(enc), c_allowed([alg, enc])), fn,
+               kidsens=(ref[0] == "s"))
+        o.crypto = "jwe"
+        return o
+
     def raw(name, fn):
         return Op(name, None, fn, modelled=False)
-    O.update(as_dict=as_dict, thumb=thumb, ensure=ensure, kid=kid, newset=newset, get_by_kid=get_by_kid, pick=pick,
+    O.update(jwe_enc=jwe_enc, jwe_dec=jwe_dec, set_as_dict=set_as_dict, as_dict=as_dict, thumb=thumb, ensure=ensure, kid=kid, newset=newset, get_by_kid=get_by_kid, pick=pick,
              sign=sign, verify=verify, raw=raw)
     return O
 
@@ -443,6 +484,7 @@ class Env:
                 s = KeySet([self.keys[i] for i in members])
             self.sets.append(s)
         self.tokens = []
+        self.jwe_tokens = []
 
 
 class Shim:
@@ -574,6 +616,9 @@ def build_worlds(specs):
         "rsa": W(["rsa", "rsapub"]),
         "okp": W(["okp"]),
         "jwk": W(["oct1jwk", "ec1jwk"], [([0, 1], False)]),
+        "oct16": W(["oct16_0"]),
+        "oct16-lazyset": W(["oct16_0", "ec0"], [([0, 1], True)]),
+        "oct16-set": W(["oct16_0", "oct16_1"], [([0, 1], False)]),
     }
 
 
@@ -599,6 +644,20 @@ def make_tokens(worlds):
     mk("es-mixed-tp", "mixed-set", 0, "ES256", "tp")
     mk("rs-nokid", "rsa", 0, "RS256")
     mk("ed-nokid", "okp", 0, "EdDSA")
+    from joserfc import jwe
+
+    def mke(name, world, k, alg, enc, kidv=None):
+        env = Env(worlds[world])
+        hdr = {"alg": alg, "enc": enc}
+        if kidv == "tp":
+            kidv = env.keys[k].thumbprint()
+        if kidv:
+            hdr["kid"] = kidv
+        toks[name] = (jwe.encrypt_compact(hdr, b"secret", env.keys[k], algorithms=[alg, enc]), alg, enc, kidv)
+    mke("kw-nokid", "oct16", 0, "A128KW", "A128GCM")
+    mke("kw-tp", "oct16", 0, "A128KW", "A128CBC-HS256", "tp")
+    mke("dir-nokid", "oct", 0, "dir", "A128CBC-HS256")
+    mke("dir16-nokid", "oct16", 0, "dir", "A128GCM")
     return toks
 
 
@@ -625,6 +684,12 @@ def pairs_quick(O):
         ("params", [O["sign"](K(0), "HS256"), O["as_dict"](1)]),
         ("params", [O["ensure"](1), O["as_dict"](2)]),
         ("jwk", [O["sign"](S(0), "ES256"), O["as_dict"](1, False)]),
+        ("oct16-lazyset", [O["jwe_enc"](S(0), "A128KW", "A128GCM"), O["as_dict"](0, False)]),
+        ("oct16", [O["jwe_enc"](K(0), "A128KW", "A128CBC-HS256"), O["jwe_dec"](K(0), "kw-nokid")]),
+        ("oct16-set", [O["jwe_dec"](S(0), "kw-tp"), O["jwe_enc"](S(0), "A128KW", "A128GCM")]),
+        ("oct", [O["jwe_enc"](K(0), "dir", "A128CBC-HS256"), O["jwe_dec"](K(0), "dir-nokid")]),
+        ("two-oct-lazy", [O["set_as_dict"](0, False), O["sign"](S(0), "HS256")]),
+        ("mixed-set", [O["set_as_dict"](0, None), O["as_dict"](1, False)]),
     ]
     return P
 
@@ -789,6 +854,21 @@ class Runner:
                 ctx.violation({"kind": "token-invalid-under-interleaving"},
                               "a token produced under the interleaving is not accepted by fresh keys: %r (%s, world %s)" % (
                                   e, [o.name for o in ops], wname), dict(replay, token=t[1] if t[0] == "jwe" else t[0]))
+        for tok, alg, enc in env.jwe_tokens:
+            good = False
+            for fk in fresh.keys:
+                try:
+                    good = good or jwe.decrypt_compact(tok, fk, algorithms=[alg, enc]).plaintext == b"secret"
+                except Exception:   # noqa
+                    pass
+            parts = tok.split(".")
+            ivs.append(("iv", parts[2]))
+            if parts[1]:
+                ivs.append(("ek", parts[1]))
+            if not good:
+                ctx.violation({"kind": "token-invalid-under-interleaving"},
+                              "a JWE produced under the interleaving is not opened by fresh keys (%s, world %s)" % ([o.name for o in ops], wname),
+                              dict(replay, token=tok))
         if len(set(ivs)) != len(ivs):
             ctx.violation({"kind": "randomness-reused"}, "IV / epk / salt / encrypted key repeated across concurrent producers: %r" % (ivs,), replay)
 
@@ -802,7 +882,8 @@ class Runner:
             c_list([coq_of(op, r) for op, r in zip(ops, res)]), c_cstr("".join(str(t) for t, _ in trace)),
             c_cstr(" ".join((lab if '"' not in lab and " " not in lab else "?") for _, lab in trace)),
             c_list([c_result(r) for r in res]),
-            c_list(["(%s, %s, %s)" % tuple(c_bool(x) for x in key_final(k)) for k in env.keys]), c_N(len(picks)))
+            c_list(["(%s, %s, %s)" % tuple(c_bool(x) for x in key_final(k)) for k in env.keys]),
+            c_N(len(picks) + sum(1 for _, lab in trace if lab in ("jwe.cek", "jwe.iv"))))
         self.cases.append(term)
         self.meta.append({"world": wname, "ops": [op.name for op in ops], "schedule": [t for t, _ in trace]})
 
@@ -921,8 +1002,10 @@ def sequential_histories(runner, ctx, variant):
             k = ctx.rng.randrange(nk)
             kty = runner.kimm(world["keynames"][k])["kty"]
             alg = {"oct": "HS256", "EC": "ES256", "RSA": "RS256", "OKP": "EdDSA"}[kty]
-            c = ctx.rng.randrange(12)
-            if c == 0:
+            c = ctx.rng.randrange(13)
+            if c == 12 and ns:
+                ops.append(O["set_as_dict"](0, ctx.rng.choice([None, False, True])))
+            elif c == 0:
                 ops.append(O["as_dict"](k, ctx.rng.choice([None, True, False])))
             elif c == 1:
                 ops.append(O["thumb"](k))
@@ -944,7 +1027,7 @@ def sequential_histories(runner, ctx, variant):
                 ops.append(O["sign"](ref, a, allowed=ctx.rng.choice([None, [a], [a], ["HS512"]]),
                                      kidv=ctx.rng.choice([None, None, "k2", ""]) if ref[0] == "s" else None))
             elif c in (9, 10):
-                tn = ctx.rng.choice(sorted(runner.tokens))
+                tn = ctx.rng.choice(sorted(t for t in runner.tokens if not t.startswith(("kw-", "dir"))))
                 ops.append(O["verify"](S(0) if ns and ctx.rng.random() < 0.5 else K(k), tn, allowed=ctx.rng.choice([None, [runner.tokens[tn][1]]])))
             else:
                 ops.append(O["as_dict"](k, False))
@@ -1628,7 +1711,7 @@ def _run(ctx, ok, log, mat, pristine):
     ctx.coverage["input_distribution"] = {"schedules_executed": runner.nsched, "schedules_distinct_per_pair": per_pair,
                                           "history_calls": dist, "scheduler_wall_s": round(t_sched, 1), "variant": variant}
 
-    ev = lib.CoqEval(["From Model Require Import Base PyVal TableTypes C20Model C20Cases."], "c20case", "c20_check", None,
+    ev = lib.CoqEval(["From Model Require Import Base PyVal TableTypes C20Model C20Cases."], "c20case", "c20_check", "c20_show",
                      shard=60, max_chars=200000, preamble=runner.preamble())
     rs = ev.run(runner.cases, jobs=8)
     ctx.coverage["traces_validated_against_impl"] = rs["evaluated"]
